@@ -36,7 +36,7 @@ ASSUMPTIONS = [
     "NumPy's own dense operations on object arrays (tensordot, einsum-free trace via np.trace, transpose) are the reference",
     "part A: as C02",
 ]
-NOT_DECIDED = ["ncon / einsum (command-list interpreter) and complex data", "apply_mask values (covered structurally in C13)"]
+NOT_DECIDED = ["complex data (values are proved over symbolic reals)", "ncon / einsum beyond the enumerated network shapes"]
 
 
 UNIVERSE = {'dense': [()], 'Z2': [(0,), (1,)], 'Z3': [(0,), (1,), (2,)], 'U1': [(-1,), (0,), (1,)],
@@ -204,6 +204,83 @@ def h_values_binary(V, sym, op, case, policy):
     raise ValueError(op)
 
 
+def h_values_network(V, sym, case, policy):
+    """ ncon / einsum against numpy.einsum on the dense operands (bosonic statistics; fermionic signs: C05) """
+    import yastn
+    lc = leg_cases(sym)
+    mk_ = lc[case % len(lc)]
+    l0 = make_leg(sym, 1, mk_[0])
+    l1 = make_leg(sym, 1, mk_[1])
+    l2 = make_leg(sym, -1, mk_[2])
+    l1b = make_leg(sym, 1, mk_[3])        # b sees a different sector content on one contracted leg
+    a = symbolic_tensor(V, 'a', sym, [l0, l1, l2], policy=policy)
+    m = symbolic_tensor(V, 'm', sym, [l2.conj(), l2], policy=policy)
+    b = symbolic_tensor(V, 'b', sym, [l2.conj(), l1b.conj(), l0.conj()], policy=policy)
+    u1 = yastn.legs_union(l1, l1b)
+    A = dense(V, a, {0: l0, 1: u1, 2: l2})
+    M = dense(V, m, {0: l2.conj(), 1: l2})
+    B = dense(V, b, {0: l2.conj(), 1: u1.conj(), 2: l0.conj()})
+    A0 = dense(V, a, {0: l0, 1: l1, 2: l2})
+    # open legs in a permuted order
+    r = V.call(yastn.ncon, [a, m], [(-1, -0, 1), (1, -2)])
+    arrays_equal(V, 'ncon:two-tensors-permuted-output:dense-equals-numpy', dense(V, r, {0: l1, 1: l0, 2: l2}), np.einsum('ijk,kl->jil', A0, M))
+    r = V.call(yastn.einsum, 'ijk,kl->jil', a, m)
+    arrays_equal(V, 'einsum:two-tensors-permuted-output:dense-equals-numpy', dense(V, r, {0: l1, 1: l0, 2: l2}), np.einsum('ijk,kl->jil', A0, M))
+    # three tensors to a number, default and explicit orders
+    want = np.einsum('ijk,kl,lji->', A, M, B)
+    for order in (None, (3, 4, 1, 2), (4, 3, 2, 1)):
+        r = V.call(yastn.ncon, [a, m, b], [(1, 2, 3), (3, 4), (4, 2, 1)], order=order)
+        V.check(f'ncon:three-tensors-to-a-number:order={order}:equals-numpy', V.call(r.item) == want)
+    r = V.call(yastn.einsum, 'ijk,kl,lji->', a, m, b, order='klij')
+    V.check('einsum:three-tensors-to-a-number:equals-numpy', V.call(r.item) == want)
+    # conjugated operand (real data: values unchanged, legs conjugated), two parallel contracted legs
+    r = V.call(yastn.ncon, [a, a], [(1, 2, -0), (1, 2, -1)], conjs=(0, 1))
+    arrays_equal(V, 'ncon:conjugated-operand:dense-equals-numpy', dense(V, r, {0: l2, 1: l2.conj()}), np.einsum('ijk,ijl->kl', A0, A0))
+    r = V.call(yastn.einsum, 'ijk,*ijl->kl', a, a)
+    arrays_equal(V, 'einsum:conjugated-operand:dense-equals-numpy', dense(V, r, {0: l2, 1: l2.conj()}), np.einsum('ijk,ijl->kl', A0, A0))
+    # trace inside a network, then a contraction
+    t = symbolic_tensor(V, 't', sym, [l2, l0, l2.conj()], policy=policy)
+    T = dense(V, t, {0: l2, 1: l0, 2: l2.conj()})
+    r = V.call(yastn.ncon, [t, b], [(1, 2, 1), (-0, -1, 2)])
+    arrays_equal(V, 'ncon:trace-then-contraction:dense-equals-numpy', dense(V, r, {0: l2.conj(), 1: u1.conj()}), np.einsum('aia,kji->kj', T, B))
+    # outer product with interleaved open legs
+    r = V.call(yastn.ncon, [m, m], [(-0, -2), (-1, -3)])
+    arrays_equal(V, 'ncon:outer-product:dense-equals-numpy', dense(V, r, {0: l2.conj(), 1: l2.conj(), 2: l2, 3: l2}), np.einsum('ik,jl->ijkl', M, M))
+
+
+def h_values_mask(V, sym, case, pattern):
+    """ apply_mask keeps exactly the positions where the diagonal mask is non-zero, in order, on the requested leg """
+    import yastn
+    lc = leg_cases(sym)
+    mk_ = lc[case % len(lc)]
+    l0 = make_leg(sym, 1, mk_[0])
+    l1 = make_leg(sym, -1, mk_[1])
+    a = symbolic_tensor(V, 'a', sym, [l0, l1, l0.conj()])
+    cfg = yastn.make_config(sym=sym_class(sym))
+    msk = yastn.ones(config=cfg, legs=[l1.conj(), l1], isdiag=True)
+    bits = np.array([(pattern >> (i % 8)) & 1 for i in range(msk.size)], dtype=bool)
+    msk = msk._replace(data=bits)
+    if V.symbolic:
+        msk = msk._replace(config=msk.config._replace(backend=BackendProxy()))
+    A = dense(V, a, {0: l0, 1: l1, 2: l0.conj()})
+    sel = np.asarray(np.diag(msk.to_numpy(legs={0: l1.conj(), 1: l1})), dtype=bool)
+    kept_t, kept_D = [], []
+    for t, D in zip(l1.t, l1.D):
+        blk = msk[t + t] if MOD[sym] else msk[()]
+        c = int(np.count_nonzero(np.asarray(blk)))
+        if c:
+            kept_t.append(t)
+            kept_D.append(c)
+    if not kept_t:
+        return
+    lk = yastn.Leg(sym_class(sym), s=-1, t=tuple(kept_t), D=tuple(kept_D))
+    r = V.call(msk.apply_mask, a, axes=1)
+    arrays_equal(V, 'apply_mask:dense-equals-numpy-selection', dense(V, r, {0: l0, 1: lk, 2: l0.conj()}), A[:, sel, :])
+    at = V.call(a.transpose, (1, 2, 0))
+    r = V.call(msk.apply_mask, at, axes=0)
+    arrays_equal(V, 'apply_mask:lazy-operand:dense-equals-numpy-selection', dense(V, r, {0: lk, 1: l0.conj(), 2: l0}), A[:, sel, :].transpose(1, 2, 0))
+
+
 def h_values_unary(V, sym, case):
     import yastn
     lc = leg_cases(sym)
@@ -273,4 +350,8 @@ def units(tier):
             for policy in ('fuse_to_matrix', 'fuse_contracted', 'no_fusion'):
                 U.append(('h_values_binary', f"{sym},tensordot,{policy},case{case}", dict(sym=sym, op='tensordot', case=case, policy=policy)))
             U.append(('h_values_unary', f"{sym},case{case}", dict(sym=sym, case=case)))
+            for policy in (('fuse_to_matrix', 'fuse_contracted', 'no_fusion') if th else ('fuse_contracted',)):
+                U.append(('h_values_network', f"{sym},{policy},case{case}", dict(sym=sym, case=case, policy=policy)))
+            for pattern in (0b10110101, 0b01001110) + ((0b11111110, 0b00010000) if th else ()):
+                U.append(('h_values_mask', f"{sym},case{case},pattern={pattern:08b}", dict(sym=sym, case=case, pattern=pattern)))
     return U
